@@ -18,6 +18,7 @@ func init() {
 		Explanation: "Decides: R20.1 in the Spec and serveUI handlers every write to the ResponseWriter happens only under string EQUALITY of path.Clean(r.URL.Path) with the configured document path, or in the 404 fallback under next == nil; every other request is forwarded to next with the unmodified (rw, r) and the handlers never write through the request; the document path is path.Join of the options; Spec writes the very bytes it was given, as JSON; the four UI constructors render once at construction and serve exactly that rendering at path.Join(BasePath, Path) (resp. the OAuth callback URL). " +
 			"R20.2 every template executed by package middleware is an html/template (option values are escaped). R20.3 the API handlers derive the spec route from the UI's SpecURL for every URL that parses, and the three flavours wire Spec(specPath, raw spec, UI(opts, routes), doc option) identically. " +
 			"R20.4 every field referenced by the built-in templates exists in the options struct it is executed with. " +
+			"R20.3 also: SpecURL is only ever set from an option argument, copied, or defaulted when empty — never rewritten. " +
 			"NOT decided: the text html/template emits; behaviour of path.Clean/url.Parse.",
 		Run: runC20,
 	})
